@@ -102,3 +102,13 @@ Theorem read_text_canonical name ls : wfb ls = true → bench_read_text name (te
 Proof.
   intros Hwf. unfold bench_read_text, bench_scan. rewrite codes_text_of by apply render_bound. by apply read_scan_canonical.
 Qed.
+
+From CG Require Import Model.BenchLayout Proofs.RegexLayout.
+(* end to end over layouts: any text whose characters are a layout of a well-formed line list is read, at character level, into
+   the closed-form circuit of that line list *)
+Theorem read_scan_layout name g0 ls : wfb (lines_of ls) = true → layouts_ok g0 ls →
+  bench_read name (scan_codes (render_layout g0 ls)) = Ok (bench_closed name (lines_of ls)).
+Proof. intros Hwf Hl. rewrite scan_layout by done. rewrite read_by_pass. by apply read_is_closed_form. Qed.
+Theorem read_text_layout name text g0 ls : codes text = render_layout g0 ls → wfb (lines_of ls) = true → layouts_ok g0 ls →
+  bench_read_text name text = Ok (bench_closed name (lines_of ls)).
+Proof. intros Ht Hwf Hl. unfold bench_read_text, bench_scan. rewrite Ht. by apply read_scan_layout. Qed.
